@@ -190,9 +190,14 @@ def rule_r2(rep):
                 if lits:
                     c = str(lits[0]["lit"].get("v"))
                     n_rows += 1
-                    rep.ob("R2-identity", f"remove_useless_binary_op:{ops[0]}:{side}{c}", (ops[0], side, c) in ident, CONSTS, a["l"],
-                           f"`{ops[0]}` with {side}-operand {c} is rewritten to the other operand, which is not valid for every "
-                           "value (definedness included)")
+                    import C07
+                    res = [x.get("path") for x in tab.walk(a["body"]) if x.get("k") == "Path" and x.get("path") in ("arg1", "arg2")]
+                    vmop = {"Add": "ADD", "Sub": "SUB", "Mul": "MUL", "Div": "DIV", "Mod": "MOD", "Lsh": "SLL", "Rsh": "SRL", "And": "AND", "Or": "OR", "Xor": "XOR"}.get(ops[0])
+                    cex = "unrecognised arm" if (len(res) != 1 or vmop is None) else \
+                        C07.identity_counterexample(vmop, "left" if side == "L" else "right", c, "left" if res[0] == "arg1" else "right")
+                    rep.ob("R2-identity", f"remove_useless_binary_op:{ops[0]}:{side}{c}", cex is None, CONSTS, a["l"],
+                           f"`{ops[0]}` with {side}-operand {c} is rewritten to {res}, which is not valid for every "
+                           f"value (definedness included): {cex}")
     rep.floor("R2-identity", 6, n_rows)
 
 
